@@ -223,3 +223,44 @@ def check_factories(res: Result, sm: SourceModel, launch_events):
         if r and r[0] == "func" and r[1].kind == "factory":
           res.ob(False, f"{r[1].key}|kwargs|{mn}", Finding("R-GLOBAL.6", f"{r[1].key}|keyword-call|{mn}", "cache_kernel's wrapper accepts positional arguments only; keyword arguments bypass the cache key", f"{m.path}:{x.lineno}"))
   return n, len(facs)
+
+
+def check_cache_wrapper(res: Result, sm: SourceModel) -> int:
+  """R-GLOBAL.7: the memoising wrapper itself. Every other cache-key clause (unique factory names, `.size`-reduced
+  parameters, no keyword calls) presupposes that the key is built from *all* positional arguments plus the identity of
+  the factory, and that keyword arguments cannot bypass it. Checked on the AST of warp_util.cache_kernel."""
+  fi = sm.func("warp_util.cache_kernel")
+  wrappers = [n for n in ast.walk(fi.node) if isinstance(n, ast.FunctionDef) and n is not fi.node and any(isinstance(x, ast.Subscript) and isinstance(x.value, ast.Name) and x.value.id == "_KERNEL_CACHE" for x in ast.walk(n))]
+  if not wrappers:
+    res.error("anchor vanished: no memoising wrapper using _KERNEL_CACHE inside warp_util.cache_kernel")
+    return 0
+  w = wrappers[0]
+  factory_param = fi.node.args.args[0].arg if fi.node.args.args else "func"
+  n = 0
+  keys = [a for a in ast.walk(w) if isinstance(a, ast.Assign) and any(isinstance(t, ast.Name) and t.id == "key" for t in a.targets)]
+  loc = f"{fi.file}:{w.lineno}"
+  n += 1
+  res.ob(len(keys) >= 1, "cache_kernel|key-assignment", Finding("R-GLOBAL.7", "warp_util.cache_kernel|key|missing", "the wrapper no longer builds a `key` for _KERNEL_CACHE", loc))
+  if keys:
+    val = keys[-1].value
+    vararg = w.args.vararg.arg if w.args.vararg else None
+    # (a) all positional arguments: a comprehension / tuple() over the *args name
+    over_args = vararg is not None and any(isinstance(g, ast.comprehension) and isinstance(g.iter, ast.Name) and g.iter.id == vararg for g in ast.walk(val)) or any(isinstance(c, ast.Call) and isinstance(c.func, ast.Name) and c.func.id == "tuple" and c.args and isinstance(c.args[0], ast.Name) and c.args[0].id == vararg for c in ast.walk(val))
+    n += 1
+    res.ob(bool(over_args), "cache_kernel|key-all-args", Finding("R-GLOBAL.7", "warp_util.cache_kernel|key|not-all-arguments", f"the cache key `{ast.unparse(val)[:80]}` is not built from every positional argument of the factory call", loc))
+    # (b) identity of the factory
+    has_func = any(isinstance(x, ast.Name) and x.id == factory_param for x in ast.walk(val))
+    n += 1
+    res.ob(has_func, "cache_kernel|key-factory-identity", Finding("R-GLOBAL.7", "warp_util.cache_kernel|key|no-factory-identity", f"the cache key `{ast.unparse(val)[:80]}` does not include the factory (`{factory_param}.__name__`): two factories called with equal argument tuples would share one cached kernel", loc))
+    # (c) keyword arguments either impossible or part of the key
+    kw = w.args.kwarg.arg if w.args.kwarg else None
+    kwonly = [a.arg for a in w.args.kwonlyargs]
+    n += 1
+    ok_kw = (kw is None and not kwonly) or all(any(isinstance(x, ast.Name) and x.id == k for x in ast.walk(val)) for k in ([kw] if kw else []) + kwonly)
+    res.ob(ok_kw, "cache_kernel|key-kwargs", Finding("R-GLOBAL.7", "warp_util.cache_kernel|key|keyword-arguments-not-hashed", "the wrapper accepts keyword arguments that do not enter the cache key", loc))
+    # (d) the kernel returned is the one stored under that key
+    nested = {id(x) for d in ast.walk(w) if isinstance(d, (ast.FunctionDef, ast.Lambda)) and d is not w for x in ast.walk(d)}
+    rets = [r for r in ast.walk(w) if isinstance(r, ast.Return) and r.value is not None and id(r) not in nested]
+    n += 1
+    res.ob(all(isinstance(r.value, ast.Subscript) and isinstance(r.value.value, ast.Name) and r.value.value.id == "_KERNEL_CACHE" and isinstance(r.value.slice, ast.Name) and r.value.slice.id == "key" for r in rets) and bool(rets), "cache_kernel|return", Finding("R-GLOBAL.7", "warp_util.cache_kernel|return|not-from-cache", "the wrapper does not return _KERNEL_CACHE[key]", loc))
+  return n
